@@ -20,7 +20,7 @@ SPEC = {
     'id': 'C08',
     'properties_file': 'theories/Properties/C08.v',
     'properties_module': 'Properties.C08',
-    'gen_files': [],
+    'gen_files': ['theories/GenFacts/PipelineFacts.v'],
     'allowed_axioms': [],
     'streams': [{
         'name': 'pipeline', 'pkg': '.', 'test': 'TestVerifC08',
@@ -43,6 +43,7 @@ SPEC = {
     'trusted_base': [
         'Coq 8.16.1 kernel; vm_compute for evaluating the model on cases',
         'no axioms',
+        'translator gen/pipeline.go (locks and calls of getOrCreateDeviceCache, ProcessMessageQueueForDevicePK and processMessageLoop in source order, writers of the chain-key flag, return statements)',
         'sched/inject (AST injector: scheduling points before mutex operations and before the listed calls), sched/vsched '
         '(controller; blocked state from runtime.Stack)',
         'harness/root/zz_verif_c08_test.go (hand-assembled MessageStore; translation of a schedule into model steps)',
